@@ -9,7 +9,7 @@ stream alone: not of how the read callback cut it into blocks, and not of
 whether (or how eagerly) a well-behaved skip callback is offered.
 Helper lemmas: LA/Lemmas/ReadAhead*.lean.
 -/
-import LA.Lemmas.ReadAheadRefine
+import LA.Lemmas.ReadAheadSeek
 namespace LA.C05
 open LA.RA
 
@@ -35,7 +35,8 @@ def runSpec {α : Type} : Prog α → Spec → α
 
 /-- The implementation model refines the abstract stream for every client,
 from every state satisfying the representation invariant. -/
-theorem run_refines {α : Type} (p : Prog α) (s : State) (hi : Inv s) (hsk : SkipsOk s.skips) :
+theorem run_refines {α : Type} (p : Prog α) (s : State) (hi : Inv s) (hsk : SkipsOk s.skips)
+    (hns : NoSeekSkip s) :
     runImpl p s = runSpec p (absN s) := by
   induction p generalizing s with
   | ret a => rfl
@@ -43,12 +44,12 @@ theorem run_refines {α : Type} (p : Prog α) (s : State) (hi : Inv s) (hsk : Sk
     obtain ⟨i1, i2, i3, i4, _⟩ := ahead_refines s min hi h
     simp only [runImpl, runSpec]
     rw [i3, ← i4]
-    exact ih _ _ i1 (by rw [i2]; exact hsk)
+    exact ih _ _ i1 (by rw [i2]; exact hsk) (noSeekSkip_of_static (ahead_static s min) hns)
   | consume n k ih =>
-    obtain ⟨i1, i2, i3⟩ := consume_refines s n hi hsk
+    obtain ⟨i1, i2, i3⟩ := consume_refines s n hi hsk hns
     simp only [runImpl, runSpec]
     rw [i2, ← i3]
-    exact ih _ _ i1 (consume_skips s n hsk)
+    exact ih _ _ i1 (consume_skips s n hsk) (noSeekSkip_of_static (consume_static s n).1 hns)
 
 /-- Freshly opened filter over a block script. -/
 def open_ (src : List (List Nat)) (t : Term) (skips : List Int) (canSkip : Bool) : State :=
@@ -62,8 +63,8 @@ theorem partition_independent {α : Type} (p : Prog α) (src1 src2 : List (List 
     (h1 : SrcOk src1) (h2 : SrcOk src2) (hcat : src1.flatten = src2.flatten)
     (hk1 : SkipsOk sk1) (hk2 : SkipsOk sk2) :
     runImpl p (open_ src1 t sk1 cs1) = runImpl p (open_ src2 t sk2 cs2) := by
-  have e1 := run_refines p (open_ src1 t sk1 cs1) (inv_init src1 t sk1 cs1 h1) hk1
-  have e2 := run_refines p (open_ src2 t sk2 cs2) (inv_init src2 t sk2 cs2 h2) hk2
+  have e1 := run_refines p (open_ src1 t sk1 cs1) (inv_init src1 t sk1 cs1 h1) hk1 (Or.inl rfl)
+  have e2 := run_refines p (open_ src2 t sk2 cs2) (inv_init src2 t sk2 cs2 h2) hk2 (Or.inl rfl)
   rw [e1, e2]
   congr 1
   simp [absN, open_, remaining, hcat]
@@ -84,8 +85,8 @@ theorem multivolume_concat {α : Type} (p : Prog α) (src1 : List (List Nat)) (l
     (hcat : src1.flatten ++ later1.flatten.flatten = src2.flatten ++ later2.flatten.flatten)
     (hk1 : SkipsOk sk1) (hk2 : SkipsOk sk2) :
     runImpl p (openNodes src1 later1 t sk1 cs1) = runImpl p (openNodes src2 later2 t sk2 cs2) := by
-  have e1 := run_refines p (openNodes src1 later1 t sk1 cs1) (inv_init_nodes src1 later1 t sk1 cs1 h1 hl1) hk1
-  have e2 := run_refines p (openNodes src2 later2 t sk2 cs2) (inv_init_nodes src2 later2 t sk2 cs2 h2 hl2) hk2
+  have e1 := run_refines p (openNodes src1 later1 t sk1 cs1) (inv_init_nodes src1 later1 t sk1 cs1 h1 hl1) hk1 (Or.inl rfl)
+  have e2 := run_refines p (openNodes src2 later2 t sk2 cs2) (inv_init_nodes src2 later2 t sk2 cs2 h2 hl2) hk2 (Or.inl rfl)
   rw [e1, e2]
   congr 1
   simp [absN, openNodes, remaining, hcat]
@@ -119,11 +120,11 @@ theorem window_is_stream_prefix (s : State) (min : Nat) (hi : Inv s) (hmin : min
 
 /-- `consume` moves the stream position by exactly the amount it reports. -/
 theorem consume_exact (s : State) (n : Nat) (hi : Inv s) (hf : s.fatal = false) (hn : 0 < n)
-    (hle : n ≤ (remaining s).length) (hsk : SkipsOk s.skips) :
+    (hle : n ≤ (remaining s).length) (hsk : SkipsOk s.skips) (hns : NoSeekSkip s) :
     (consume s n).1 = n ∧ remaining (consume s n).2 = (remaining s).drop n ∧
     (consume s n).2.position = s.position + n := by
-  have hc := consume_refines s n hi hsk
-  obtain ⟨g1, g2, _, g4⟩ := advance_spec s n hi hf hn
+  have hc := consume_refines s n hi hsk hns
+  obtain ⟨g1, g2, _, g4⟩ := advance_spec s n hi hf hn hns
   unfold consume at *
   have h1 : ¬ ((n : Int) < 0) := by omega
   have h2 : ¬ ((n : Int) = 0) := by omega
